@@ -244,6 +244,62 @@ static std::vector<Point> run_one(const std::string& type, const VerCfg& vc, con
 	return tape.points;
 }
 
+// Fork-per-execution mode for units in which a synthesised input has already killed a worker
+// (sanitizer fault inside the reader = "input not accepted", DESIGN section 5 e).  The child runs
+// the execution and its oracle, then sends the choice points and its protocol lines back.
+static std::vector<Point> run_one_isolated(const std::string& type, const VerCfg& vc, const Script& s, Stats& st) {
+	int fd[2];
+	if (pipe(fd) != 0) vf::fatal("pipe failed");
+	fflush(stdout);
+	pid_t pid = fork();
+	if (pid < 0) vf::fatal("fork failed");
+	if (pid == 0) {
+		close(fd[0]);
+		Stats cs;
+		g_unit_nontrivial.clear();
+		g_unit_outcomes.clear();
+		g_unit_file_outcomes.clear();
+		std::vector<Point> pts = run_one(type, vc, s, cs);
+		cs.add("distinct_nontrivial", (long long) g_unit_nontrivial.size());
+		cs.add("distinct_outcomes", (long long) g_unit_outcomes.size());
+		cs.add("distinct_file_outcomes", (long long) g_unit_file_outcomes.size());
+		FILE* f = fdopen(fd[1], "w");
+		uint32_t n = (uint32_t) pts.size();
+		fwrite(&n, 4, 1, f);
+		if (n) fwrite(pts.data(), sizeof(Point), n, f);
+		cs.flush(f);
+		fclose(f);
+		_exit(0);
+	}
+	close(fd[1]);
+	std::string buf;
+	char tmp[65536];
+	ssize_t r;
+	while ((r = read(fd[0], tmp, sizeof tmp)) > 0) buf.append(tmp, (size_t) r);
+	close(fd[0]);
+	int status = 0;
+	waitpid(pid, &status, 0);
+	std::vector<Point> pts;
+	bool ok = WIFEXITED(status) && WEXITSTATUS(status) == 0 && buf.size() >= 4;
+	if (ok) {
+		uint32_t n;
+		memcpy(&n, buf.data(), 4);
+		if (buf.size() < 4 + (size_t) n * sizeof(Point)) ok = false;
+		else {
+			pts.resize(n);
+			if (n) memcpy(pts.data(), buf.data() + 4, (size_t) n * sizeof(Point));
+			st.raw.append(buf, 4 + (size_t) n * sizeof(Point), std::string::npos);
+		}
+	}
+	if (!ok) {
+		vf::CrashInfo ci = vf::read_crash(A.rundir, pid, status, A.repo);
+		st.add("rejected_by_fault");
+		st.distinct("fault_sites", ci.key());
+	}
+	st.add("isolated_executions");
+	return pts;
+}
+
 static const VerCfg* find_ver(const std::string& n) {
 	for (auto& v : all_versions()) if (n == v.name) return &v;
 	return nullptr;
@@ -292,11 +348,11 @@ int main(int argc, char** argv) {
 		ExploreCfg cfg;
 		cfg.bound = g_bound;
 		cfg.wide = g_wide;
-		for (auto& s : skips) cfg.skip.insert(s.substr(2));
+		const bool isolated = !skips.empty(); // this unit killed a worker before: fork per execution
 		g_unit_nontrivial.clear();
 		g_unit_outcomes.clear();
 		g_unit_file_outcomes.clear();
-		bool complete = explore(cfg, [&](const Script& s) { return run_one(type, vc, s, st); });
+		bool complete = explore(cfg, [&](const Script& s) { return isolated ? run_one_isolated(type, vc, s, st) : run_one(type, vc, s, st); });
 		if (!complete) st.capped("deadline reached inside unit " + type + "/" + vc.name);
 		st.add("units");
 		st.add("distinct_nontrivial", (long long) g_unit_nontrivial.size());
@@ -305,17 +361,10 @@ int main(int argc, char** argv) {
 	};
 	auto crash_fn = [&](size_t u, const vf::CrashInfo& ci, const std::string& inflight, Stats& parent) -> std::string {
 		// a sanitizer fault while reading a synthesised block = input not accepted (DESIGN section 5, e)
-		parent.add("rejected_by_fault");
 		parent.distinct("fault_sites", ci.key());
-		std::string script;
-		try {
-			J j = J::parse(inflight);
-			script = script_str(script_from_json(j["script"]));
-			if (parent.cnt["rejected_by_fault"] <= 5) parent.note("rejected_by_fault: " + ci.key() + " on " + inflight.substr(0, 300));
-		} catch (std::exception&) {
-			return "";
-		}
-		return "S:" + script;
+		if (parent.cnt["units_isolated"] < 8) parent.note("unit re-run with one forked child per execution after " + ci.key() + " on " + inflight.substr(0, 300));
+		parent.add("units_isolated");
+		return "ISOLATE";
 	};
 	vf::run_pool(units.size(), pc, unit_fn, crash_fn, top);
 
